@@ -104,7 +104,7 @@ Live(h) == h \in 1..Len(trees)
 T(a) == trees[a.h]
 
 WriteOps == {"ins", "roi", "upd", "upsert", "del", "idel", "delmin", "delmax", "clear"}
-ReadOps  == {"get", "has", "len", "min", "max", "scan", "nop"}
+ReadOps  == {"get", "has", "len", "min", "max", "scan", "nop", "pscan"}   \* pscan: a scan whose callback panics: changes nothing, replies 0
 
 Reply(a) ==
   CASE a.op = "ins"    -> 0                                   \* wrapper Insert
